@@ -1606,9 +1606,31 @@ class SPattern:
         return mk(out)
 
     def findall(self, s):
-        if isinstance(s, SStr):
-            raise Unsupported('re.findall on symbolic')
-        return self.real.findall(s)
+        if not isinstance(s, SStr):
+            return self.real.findall(s)
+        chars = s.chars
+        n = len(chars)
+        out = []
+        pos = 0
+        flags = self.tree.state.flags
+        ng = self.real.groups
+        while pos <= n:
+            hit = None
+            for cond, end, groups in matches(list(self.tree), chars, pos, {}, flags):
+                if fork(cond):
+                    hit = (end, groups)
+                    break
+            if hit is None:
+                pos += 1
+                continue
+            end, groups = hit
+            if ng == 0:
+                out.append(mk(chars[pos:end]))
+            else:
+                items = tuple(mk(chars[groups[g][0]:groups[g][1]]) if g in groups else '' for g in range(1, ng + 1))
+                out.append(items[0] if ng == 1 else items)
+            pos = end if end > pos else pos + 1
+        return out
 
 
 class SMatch:
@@ -1692,7 +1714,8 @@ def class_cond(c, items, negate=False, flags=0):
         else:
             raise Unsupported('regex class item %s' % op)
     r = z3.Or(alts) if alts else z3.BoolVal(False)
-    return z3.Not(r) if negate else r
+    r = z3.Not(r) if negate else r
+    return z3.simplify(r) if isinstance(c, int) else r
 
 
 def category_cond(c, cat):
@@ -1711,6 +1734,30 @@ def category_cond(c, cat):
     raise Unsupported('regex category %s' % cat)
 
 
+_TRUE = z3.BoolVal(True)
+
+
+def _qsimp(c):
+    """None if the condition is concretely false, the (simplified) condition otherwise"""
+    if z3.is_true(c):
+        return _TRUE
+    if z3.is_false(c):
+        return None
+    if c.num_args() and all(z3.is_bool(a) and (z3.is_true(a) or z3.is_false(a)) for a in c.children()):
+        c = z3.simplify(c)
+        if z3.is_false(c):
+            return None
+    return c
+
+
+def _and(a, b):
+    if z3.is_true(a):
+        return b
+    if z3.is_true(b):
+        return a
+    return z3.And(a, b)
+
+
 def matches(items, chars, pos, groups, flags):
     """generate (cond, endpos, groups) alternatives in backtracking priority order
     for matching the sequence `items` at `pos`"""
@@ -1721,25 +1768,28 @@ def matches(items, chars, pos, groups, flags):
     n = len(chars)
     if op is sre_c.LITERAL:
         if pos < n:
-            c = lit_cond(chars[pos], av, flags)
-            if not z3.is_false(c):
+            c = _qsimp(lit_cond(chars[pos], av, flags))
+            if c is not None:
                 for cond, e, g in matches(rest, chars, pos + 1, groups, flags):
-                    yield z3.And(c, cond), e, g
+                    yield _and(c, cond), e, g
     elif op is sre_c.NOT_LITERAL:
         if pos < n:
-            c = z3.Not(lit_cond(chars[pos], av, flags))
-            for cond, e, g in matches(rest, chars, pos + 1, groups, flags):
-                yield z3.And(c, cond), e, g
+            c = _qsimp(z3.Not(lit_cond(chars[pos], av, flags)))
+            if c is not None:
+                for cond, e, g in matches(rest, chars, pos + 1, groups, flags):
+                    yield _and(c, cond), e, g
     elif op is sre_c.ANY:
         if pos < n:
-            c = z3.Not(ceq(chars[pos], 10)) if not (flags & real_re.DOTALL) else z3.BoolVal(True)
-            for cond, e, g in matches(rest, chars, pos + 1, groups, flags):
-                yield z3.And(c, cond), e, g
+            c = _qsimp(z3.Not(ceq(chars[pos], 10)) if not (flags & real_re.DOTALL) else z3.BoolVal(True))
+            if c is not None:
+                for cond, e, g in matches(rest, chars, pos + 1, groups, flags):
+                    yield _and(c, cond), e, g
     elif op is sre_c.IN:
         if pos < n:
-            c = class_cond(chars[pos], av, flags=flags)
-            for cond, e, g in matches(rest, chars, pos + 1, groups, flags):
-                yield z3.And(c, cond), e, g
+            c = _qsimp(class_cond(chars[pos], av, flags=flags))
+            if c is not None:
+                for cond, e, g in matches(rest, chars, pos + 1, groups, flags):
+                    yield _and(c, cond), e, g
     elif op is sre_c.AT:
         if av is sre_c.AT_BEGINNING or av is sre_c.AT_BEGINNING_STRING:
             if pos == 0:
